@@ -1,17 +1,18 @@
 #!/bin/bash
 # Re-validate every kept seed against /repo HEAD: demo passes without the patch, fails with it.
 cd "$(dirname "$0")/.."
-W=$(mktemp -d /tmp/vfre.XXXXXX)
-git -C /repo worktree add --detach "$W/repo" HEAD >/dev/null 2>&1
-trap 'git -C /repo worktree remove --force "$W/repo" >/dev/null 2>&1; rm -rf "$W"' EXIT
+# demos written by the mutation agents hard-code their scratch worktree /tmp/wt/<PROPERTY>
 for d in seeded/*/; do
   n=$(basename $d)
+  W=/tmp/wt; mkdir -p $W; R=$W/${n%%-*}
+  if [ ! -d "$R" ]; then git -C /repo worktree add --detach "$R" HEAD >/dev/null 2>&1; fi
   [ -n "$1" ] && [[ "$n" != $1* ]] && continue
   demo=$(ls $d | grep -E "^demo" | head -1)
   PATCH=$d/patch.diff; [ -f $d/patch.rebased.diff ] && PATCH=$d/patch.rebased.diff
-  (cd "$W/repo" && git reset -q --hard && git clean -fdq)
-  (cd "$W/repo" && PYTHONPATH="$W/repo" timeout 120 /venv/bin/python "$OLDPWD/$d/$demo" >/dev/null 2>&1); a=$?
-  (cd "$W/repo" && (git apply "$OLDPWD/$PATCH" 2>/dev/null || git apply --3way "$OLDPWD/$PATCH" >/dev/null 2>&1)); ap=$?
-  (cd "$W/repo" && PYTHONPATH="$W/repo" timeout 120 /venv/bin/python "$OLDPWD/$d/$demo" >/dev/null 2>&1); b=$?
+  (cd "$R" && git reset -q --hard && git clean -fdq)
+  (cd "$R" && PYTHONPATH="$R" timeout 120 /venv/bin/python "$OLDPWD/$d/$demo" >/dev/null 2>&1); a=$?
+  (cd "$R" && (git apply "$OLDPWD/$PATCH" 2>/dev/null || git apply --3way "$OLDPWD/$PATCH" >/dev/null 2>&1)); ap=$?
+  (cd "$R" && PYTHONPATH="$R" timeout 120 /venv/bin/python "$OLDPWD/$d/$demo" >/dev/null 2>&1); b=$?
   echo "$n apply=$ap demo_without=$a demo_with=$b"
 done
+for R in /tmp/wt/C*; do git -C /repo worktree remove --force "$R" >/dev/null 2>&1; done
